@@ -390,6 +390,8 @@ def code_gaps(tree_or_text):
     excluded (whitespace there is content, not trivia)."""
     tree = tree_or_text if isinstance(tree_or_text, Tree) else parse(tree_or_text)
     lv = [n for n in leaves(tree) if n.type != "comment"]
+    tops = [k for k in tree.root.children if k.type != "comment"]
+    top_type = tops[0].type if len(tops) == 1 else ("none" if not tops else "multi")
     gaps: list[Gap] = []
     src_len = len(tree.src)
     idx = 0
@@ -437,12 +439,18 @@ def code_gaps(tree_or_text):
             if prev is None and n is None:
                 label = ("source_code", "^", "$")
             elif prev is None:
-                label = ("source_code", "^", n.type)
+                label = ("source_code:" + top_type, "^", n.type)
             elif n is None:
-                label = ("source_code", prev.type, "$")
+                label = ("source_code:" + top_type, prev.type, "$")
             else:
                 l = _lca(prev, n)
-                label = (l.type if l is not None else "?", prev.type, n.type)
+                lt = l.type if l is not None else "?"
+                if lt == "parenthesized_expression":
+                    inner = next((k for k in l.children if k.is_named and k.type != "comment"), None)
+                    lt += ":" + (inner.type if inner is not None else "?")
+                elif lt == "source_code":
+                    lt += ":" + top_type
+                label = (lt, prev.type, n.type)
             needs = False
             gaps.append(
                 Gap(
